@@ -20,9 +20,9 @@ CLAIMED = {
         design='6/C20'),
     'C01': dict(
         text=("Lean theorems about the model of the Fourier-transform objects (the same polymorphic definitions run in the driver): the full FastFourierTransform forward/backward pipeline — weights, piston removal, pad, ifftshift, DFT, fftshift, crop, output multiplier, and the emulated-fftshift configuration — equals the weighted defining sum Σ f_j w χ(−u_k x_j) for all N ≤ M, Mo ≤ M, spacings, offsets and shifts under the grid-consistency predicate (1-D, and 2-D via a proved separability lemma; Complex.exp instances); "
-              "the matrix transform's two products equal the 2-D sum (both weight branches, conjugate-transposed backward); Bluestein chirp-z = its defining sum for all n, m, nfft ≥ n+m−1; zoom-FFT axis bookkeeping correct for every tensor rank and dimension (old `-i` code refuted); the padded sizes the old code reported for N=87,q=2.5 are inconsistent for every δ. "
+              "the matrix transform's two products equal the 2-D sum (both weight branches, conjugate-transposed backward); Bluestein chirp-z = its defining sum for all n, m, nfft ≥ n+m−1; zoom-FFT axis bookkeeping correct for every tensor rank and dimension (old `-i` code refuted); the padded sizes the old code reported for N=87,q=2.5 are inconsistent for every δ; 2-D and 3-D forward/backward and the n-axis iterated pipeline by induction; make_fourier_transform's selection sound (chosen class's preconditions hold, get_fft_parameters∘make_fft_grid round trip); results independent of the persistent internal buffer's previous contents. "
               "Tie: reported sizes/cut-outs/grids/weights vs the model's plan, modelled pipeline on impulses vs the real transforms; oracle: every implementation and switch combination vs a longdouble defining sum."),
-        note=TRUST + " The FFT kernel is assumed to be the DFT, BLAS gemm the matrix product. No theorem for make_fourier_transform's selection logic, 2-D backward, or n ≥ 3 dimensions (oracle only). Rounding bounded by 1e-9 (complex64: 2e-4) on sampled inputs.",
+        note=TRUST + " The FFT kernel is assumed to be the DFT, BLAS gemm the matrix product. Beyond 3 axes the literal array program equals the iterated pipeline by NumPy's fftn specification, not by proof; the planner's float cost comparison in make_fourier_transform is an oracle input. Rounding bounded by 1e-9 (complex64: 2e-4) on sampled inputs.",
         technique="Lean 4 proof (finite-sum reindexing over periodic characters, separability, Bluestein identity) + plan correspondence and defining-sum oracle on all implementations",
         design='6/C01'),
     'C02': dict(
@@ -76,9 +76,9 @@ CLAIMED = {
               "the focal grid scaled by 2*pi/(lambda*f) (any dimension, tensor component, wavelength-dependent focal length), power "
               "conservation (also Stokes power of Jones-matrix wavefronts) and backward∘forward = id on the full conjugate grid with the weight "
               "change proved, wavelength/Stokes carried. The Fourier transform enters through named hypotheses (EvaluatesFourierSum, ParsevalOn, "
-              "InverseOn) that C01/C02's theorems are about. Tie: model reproduces both focal-grid constructors and impulse responses in exact "
+              "InverseOn, EvaluatesAdjointSum) which are DISCHARGED in Lean for the FFT pipeline model of C01/C02 (Lemmas/FourierLink.lean), giving hypothesis-free corollaries (*_fft, *_auto); also setter/session histories on one propagator. Tie: model reproduces both focal-grid constructors and impulse responses in exact "
               "turns; oracle compares the real FraunhoferPropagator with the direct weighted sum at every focal point."),
-        note=TRUST + " The FFT/MFT kernels are assumed to evaluate the defining sum (that is property C01); rounding is bounded only by the 1e-9 tolerance.",
+        note=TRUST + " For the matrix/naive/zoom transforms the Fourier facts remain hypotheses (C01 proves them for those models separately); rounding is bounded only by the 1e-9 tolerance.",
         technique="Lean 4 proof (algebra over ℂ, abstract Fourier hypotheses) + correspondence and direct-sum oracle on the real propagator",
         design='6/C03'),
     'C04': dict(
@@ -86,7 +86,7 @@ CLAIMED = {
               "power non-increase when |D|<=1 (incl. sub-pixel averaged Fresnel transfer functions and propagating angular spectrum), D(-z)=conj D(z), and for "
               "no padding/oversampling unitarity, backward inverts forward, additivity in z. Old angular-spectrum behaviour kept with proved counterexamples "
               "(evanescent growth). Tie: regime/branch bookkeeping, transfer-function phases in exact turns, end-to-end pad→fft→D→ifft→crop comparison with the real propagators."),
-        note=TRUST + " The DFT's inverse/adjoint laws are hypotheses of the FourierPair structure (instantiated in examples; proved for the DFT in C02). Impulse-response accuracy is not claimed.",
+        note=TRUST + " The FourierPair structure is instantiated in Lean by the 1-D and 2-D DFT (dftPair, dftPair2 = the model's fftn/ifftn), giving hypothesis-free *_dft corollaries. Impulse-response accuracy is not claimed; single-precision loss is caught by the fresh-object oracle only.",
         technique="Lean 4 proof (finite-dimensional linear algebra over ℂ) + correspondence and numeric oracle on real Fresnel/angular-spectrum propagators",
         design='6/C04'),
     'C05': dict(
